@@ -1877,12 +1877,16 @@ SRC_THEOREMS = ['GV.C14Src.' + t for t in (
     'mpolyToGeoInterface_eq',
     # the Feature, properties, time fields out and back
     'startDt_eq', 'endDt_eq', 'properties_eq', 'propertiesJson_eq', 'toGeoJson_eq', 'convert_eq', 'getDt_eq',
+    # the importers: from_geojson of the six types (dynamic lookups, ring / member loops, time fields popped from a copy)
+    'pointFromGeoJson_eq', 'lineFromGeoJson_eq', 'mpointFromGeoJson_eq', 'mlineFromGeoJson_eq', 'polygonLoop1_spec',
+    'polygonLoop2_spec', 'polygonTail1', 'polygonTail2', 'polygonFromGeoJson_eq', 'mpolyLoop1_spec', 'mpolyLoop2_spec',
+    'mpolyTail1', 'mpolyTail2', 'mpolyFromGeoJson_eq', 'srcImport_eq', 'arrOK_exported',
     # the chain as Python dispatches it
     'PolyRecv.linearRings_eq', 'PolyRecv.geoInterface_eq', 'Recv.geoInterface_eq', 'export_eq',
     # C14's headline theorems restated for the translated source
     'src_isCCW_iff_area', 'src_isCCW_iff_winding', 'src_mkPolygon', 'src_exterior_ccw_holes_cw',
     'src_exterior_ccw_holes_cw_antimeridian', 'src_geom_roundtrip', 'src_roundtrip', 'src_time_fields_roundtrip',
-    'src_time_fields_absent')]
+    'src_time_fields_absent', 'src_full_roundtrip')]
 
 
 def check(run):
